@@ -12,6 +12,8 @@ package serializer
 
 /*@
 global itemCalls Int        -- how often ReadSequenceOfObjects invoked its item deserializer (ghost)
+global lenok Bool           -- ReadSequenceOfObjects has read a length field (ghost)
+global bchecked Bool        -- ReadSequenceOfObjects has checked that length against the array bounds (ghost)
 
 -- the collection length denoted by a prefix of type lt at a[o..]
 specfun lenprefix(a IntArr, o Int, lt Int) Int = lt == 200 ? sel(a, o) : (lt == 201 ? le16(a, o) : le32(a, o))
@@ -220,10 +222,16 @@ func Deserializer.ReadSequenceOfObjects
     ensures err == nil ==> 0 <= n && n <= len(b)          -- what serix.decode* and every generated Deserialize promise
     ghost at return: itemCalls = itemCalls + 1
   callback arrayElementValidator(index, next) (verr)      -- the validator closures only touch their own captured state
-  modifies d.offset, d.err, ghost(itemCalls)
-  loop 1 invariant inv(d) && d.offset >= old(d.offset) && d.src == old(d.src)
+  modifies d.offset, d.err, ghost(itemCalls), ghost(lenok), ghost(bchecked)
+  ghost at entry: lenok = false
+  ghost at entry: bchecked = false
+  ghost after call Deserializer.readSliceLength: lenok = (r1 == nil)
+  ghost after call ArrayRules.CheckBounds: bchecked = true
+  loop 1 invariant inv(d) && d.offset >= old(d.offset) && d.src == old(d.src) && (bitand(deSeriMode, DeSeriModePerformValidation) > 0 ==> bchecked)
   ensures r0 == d && inv(d) && d.src == old(d.src) && d.offset >= old(d.offset)
   ensures old(d.err) != nil ==> itemCalls == old(itemCalls)
+  -- validating mode: every length that was read - also zero - has been checked against the bounds before the function returns
+  ensures bitand(deSeriMode, DeSeriModePerformValidation) > 0 && lenok ==> bchecked
   -- a length field outside the validated bounds never drives the item loop
   ensures bitand(deSeriMode, DeSeriModePerformValidation) > 0 && ((arrayRules.Min != 0 && lenprefix(elems(d.src), off(d.src) + old(d.offset), lenType) < arrayRules.Min) || (arrayRules.Max != 0 && lenprefix(elems(d.src), off(d.src) + old(d.offset), lenType) > arrayRules.Max)) ==> itemCalls == old(itemCalls)
 
